@@ -46,6 +46,9 @@ class DeepONetSingleModuleCondition(Condition):
             > 0
         )
 
+        if self.input_sampler.is_adaptive:
+            self.last_unreduced_loss = None
+
     def forward(self, device="cpu", iteration=None):
         # 1) if necessary, sample input function and evaluate branch net
         self.net._forward_branch(
